@@ -28,5 +28,7 @@ def run(chk):
 
 
 def replay(chk, path):
-    print(open(path).read())
-    return 1
+    v, text = win_table.replay_case(path)
+    print(text)
+    print(f"[{chk.pid}] replay: {'STILL VIOLATED' if v else 'no longer violated on the current tree'}")
+    return 1 if v else 0
